@@ -102,6 +102,8 @@ type Gen struct {
 	BindErrs    []string
 	params      map[string]Val
 	ghostVals   map[string]Val // ghost parameters of the function under verification
+	callRes     map[string]Val // results of contract-carrying calls, by callres_<Func>_<k>
+	callResOrd  map[string]int
 	results     []string // result names
 	debugVals   map[string][]debugBinding
 	strLits     map[string]*Term
@@ -193,6 +195,8 @@ func (g *Gen) reset() {
 	g.mergeCases = map[*Term][]*mergeCase{}
 	g.usedCallAssumes = map[*Clause]bool{}
 	g.preCallOrd = map[string]int{}
+	g.callRes = nil
+	g.callResOrd = nil
 	g.sentinels = nil
 	g.retVals = nil
 	g.frameIdx = nil
